@@ -319,8 +319,11 @@ def run(ctx):
         if not rule.viol:
             ctx.ob(R3, fi.qual, f"all {rule.feeds} decompress() calls respect the decompressobj typestate", True)
     zf = m.method(f"{RS}.ZstdDecoder", "flush")
-    txt = astq.text(zf.node)
-    ctx.ob(R3, zf.qual, "flush() raises DecodeError when the frame is incomplete (not eof)", "if not self._obj.eof:\n        raise DecodeError(" in txt)
+    from ..rows import GenRule as _GR, effect_rows as _er
+    zrows = _er(ctx, zf, _GR(ctx, RS), f"{RS}.ZstdDecoder")
+    inc = [r for r in zrows if r.truth("self._obj.eof") is False]
+    okz = bool(inc) and all(r.out == "raise:DecodeError" for r in inc)
+    ctx.ob(R3, zf.qual, "flush() raises DecodeError when the frame is incomplete (not eof)", okz, "; ".join(r.out for r in inc))
 
     # ------------------------------------------------------------------ R4 reverse order
     R4 = ctx.rule("C12-R4", "stacked codings are undone in reverse order of the header; flush flushes the decoder applied last", "E6")
